@@ -63,8 +63,14 @@ SOL = {
     'C.sol': 'pragma solidity 0.7.6;\ncontract C {\n    uint256 private v;\n    function s(bytes memory d) external returns (bytes32) {\n'
              '        v = v * 4;\n        return keccak256(d);\n    }\n}\n',
 }
-LAYOUT = [('A.sol', 'A.sol'), ('B.sol', 'B.sol'), ('C.sol', 'C.sol'), ('sub/A.sol', 'C.sol'), ('sub/Z.sol', 'A.sol'),
-          ('sub/deep/B.sol', 'B.sol'), ('other/M.sol', 'B.sol'), ('skip.t.sol', 'A.sol'), ('notes.txt', 'A.sol')]
+# {d1}..{d5} are directory ROLES: every tree gives them different names (directory names are not part of a finding - only
+# the base name of the file is - so the set of findings is the same while the listing order of the directories differs;
+# on ext4 the listing order depends on the names, not on the creation order).  {d4}/A.sol and {d5}/A.sol are identical
+# copies of the top-level A.sol; {d3}/M.sol has the same patterns as the copies.
+LAYOUT = [('A.sol', 'A.sol'), ('B.sol', 'B.sol'), ('C.sol', 'C.sol'), ('{d1}/A.sol', 'C.sol'), ('{d1}/Z.sol', 'A.sol'),
+          ('{d1}/{d2}/B.sol', 'B.sol'), ('{d3}/M.sol', 'B.sol'), ('{d4}/A.sol', 'A.sol'), ('{d5}/A.sol', 'A.sol'),
+          ('{d5}/M.sol', 'A.sol'), ('skip.t.sol', 'A.sol'), ('notes.txt', 'A.sol')]
+DIR_NAMES = ['sub', 'other', 'deep', 'a', 'b', 'm', 'lib', 'src', 'zz', 'v1', 'v2', 'legacy', 'core', 'x', 'Y', '0']
 
 
 def binary_runs(ctx, rng, n_trees, runs_per_tree):
@@ -76,7 +82,8 @@ def binary_runs(ctx, rng, n_trees, runs_per_tree):
     shutil.rmtree(base, ignore_errors=True)
     out = []
     for t in range(n_trees):
-        order = list(LAYOUT)
+        names = rng.sample(DIR_NAMES, 5)
+        order = [(rel.format(d1=names[0], d2=names[1], d3=names[2], d4=names[3], d5=names[4]), src) for rel, src in LAYOUT]
         rng.shuffle(order)
         root = os.path.join(base, 'tree%d' % t)
         for rel, src in order:
@@ -131,7 +138,7 @@ def run(rep, ctx):
                      {'sets': len(sets), 'renders_in_fresh_processes': total_renders, 'orders_per_set': n_orders,
                       'sets_with_more_than_one_output': len(failing)})
     # the real binary on the same tree content created in different orders
-    bruns = binary_runs(ctx, rng, 3 if ctx.tier == 'quick' else 8, 3 if ctx.tier == 'quick' else 5)
+    bruns = binary_runs(ctx, rng, 6 if ctx.tier == 'quick' else 24, 2 if ctx.tier == 'quick' else 3)
     bdistinct = list(dict.fromkeys(o if isinstance(o, str) else bytes(o) for _, o in bruns))
     rep.coverage['binary_end_to_end'] = {'runs': len(bruns), 'distinct_reports': len(bdistinct),
                                          'report_bytes': len(bdistinct[0]) if bdistinct and not isinstance(bdistinct[0], str) else 0,
